@@ -133,6 +133,34 @@ def same_ruleset(a, b):
     return diffs
 
 
+def autodetect_case(variant, bom, root):
+    """the same list as plain / $HEX[] / count-prefixed file (each starting with `bom`) trained by trainer.py without --encoding"""
+    viol = []
+    words = [('summer2019', 3), ('пароль1', 2), ('naïve pass', 1), ('x1', 2), ('Dragon!', 1)]
+    files = {'plain': b''.join((w.encode('utf-8') + b'\n') * n for w, n in words),
+             'hex': b''.join((b'$HEX[' + w.encode('utf-8').hex().encode() + b']\n') * n for w, n in words),
+             'count': b''.join(b'  ' + str(n).encode() + b' ' + w.encode('utf-8') + b'\n' for w, n in words)}
+    dirs = {}
+    snap = common.snapshot()
+    for kind, data in files.items():
+        tfp = os.path.join(root, f"auto_{variant}_{kind}.txt")
+        with open(tfp, 'wb') as f:
+            f.write(bom + data)
+        name = f"c19auto_{variant}_{kind}"
+        o_, e_, rc_ = common.run_cli('trainer.py', ['-r', name, '-t', tfp] + (['--prefixcount'] if kind == 'count' else []), stdin='devnull', timeout=300)
+        dirs[kind] = (os.path.join(snap, 'Rules', name), rc_, e_[-200:])
+    wit = {'autodetect': variant, 'words': words}
+    oks = {k: os.path.exists(os.path.join(d, 'Grammar', 'grammar.txt')) for k, (d, _, _) in dirs.items()}
+    if len(set(oks.values())) > 1:
+        viol.append({'property': 'C19', 'kind': 'training-success-differs', 'ok': oks, 'witness': wit})
+    elif all(oks.values()):
+        for other, kind in (('hex', 'hex-ruleset-differs'), ('count', 'count-ruleset-differs')):
+            dd = same_ruleset(dirs['plain'][0], dirs[other][0])
+            if dd:
+                viol.append({'property': 'C19', 'kind': kind, 'files': dd[:5], 'encoding': 'auto-detected', 'witness': wit})
+    return viol
+
+
 def run(ctx):
     rng = ctx.rng
     viol, samples, disagreements = [], [], []
@@ -252,6 +280,12 @@ def run(ctx):
             d = same_ruleset(rdirs[0], other)
             if d:
                 viol.append({'property': 'C19', 'kind': kind, 'files': d[:5], 'witness': {'rep': [(b.hex(), n) for b, n in rep], 'encoding': enc}})
+    # the command line without --encoding: the encoding is auto-detected.  The same list as plain / $HEX[] / count-prefixed file, each
+    # saved with a UTF-8 byte order mark (and once without), must train the same ruleset through `trainer.py` itself
+    for variant, bom in (('bom', b'\xef\xbb\xbf'),) + ((('nobom', b''),) if not ctx.quick else ()):
+        viol += autodetect_case(variant, bom, root)
+        cases += 1
+        dist['autodetect_trainings'] = dist.get('autodetect_trainings', 0) + 3
     if ctx.driver_ok:
         out = common.run_driver(ops)
         for i, (a, b) in enumerate(zip(out, exp)):
@@ -272,6 +306,10 @@ def run(ctx):
 
 
 def replay(ctx, payload):
+    w0 = payload.get('violation', {}).get('witness') or {}
+    if 'autodetect' in w0:
+        common.use_impl()
+        return autodetect_case(w0['autodetect'], b'\xef\xbb\xbf' if w0['autodetect'] == 'bom' else b'', common.scratch_dir('c19'))
     w = payload.get('violation', {}).get('witness') or {}
     root = common.scratch_dir('c19r')
     enc = w.get('encoding', 'utf-8')
